@@ -5,36 +5,40 @@
                                                    -> on_refresh (WAITING and >= k routed: start)
      mistral/engine/tasks.py:Task.complete          -> on_complete
    `rearm` says whether a trigger arriving after the join execution completed puts it back to WAITING
-   (Gen/Locks.v: defer_rearm_acyclic / defer_rearm_cyclic, extracted from Task.defer).
+   (Gen/Locks.v: defer_rearm_acyclic / defer_rearm_cyclic / defer_rearm_unstarted, extracted from Task.defer);
+   `rearm_unstarted`: the same for a join that failed without ever starting.
    Correspondence suite: harness/suites/C04.py (defer_decision: the REAL Task.defer on an existing row of every state;
    engine oracle: number of action executions of a join in real runs).
    No proofs in this file. *)
 From Coq Require Import List Arith Bool.
 Import ListNotations.
 
-Inductive jstate := JAbsent | JWaiting | JRunning | JDone.
+(* JFailed: completed (ERROR) by the logical state without ever having started; JDone: completed after it ran *)
+Inductive jstate := JAbsent | JWaiting | JRunning | JDone | JFailed.
 
 Inductive jevent :=
 | Trigger      (* an inbound task completed and routed to the join: RunTask command -> Task.defer *)
 | Refresh      (* the scheduled _refresh_task_state job runs *)
-| Complete.    (* the join's own action completed *)
+| Complete     (* the join's own action completed *)
+| Fail.        (* the refresh job evaluated the logical state ERROR: the join completes without starting *)
 
 Record jlife := mkLife { js : jstate; routed_n : nat; starts : nat }.
 
 Definition life0 : jlife := mkLife JAbsent 0 0.
 
 (* what Task.defer does to an existing execution *)
-Definition on_trigger (rearm : bool) (s : jstate) : jstate :=
+Definition on_trigger (rearm rearm_unstarted : bool) (s : jstate) : jstate :=
   match s with
   | JAbsent => JWaiting
   | JWaiting => JWaiting
   | JRunning => JRunning
   | JDone => if rearm then JWaiting else JDone
+  | JFailed => if rearm_unstarted then JWaiting else JFailed
   end.
 
-Definition life_step (rearm : bool) (k : nat) (l : jlife) (e : jevent) : jlife :=
+Definition life_step (rearm ru : bool) (k : nat) (l : jlife) (e : jevent) : jlife :=
   match e with
-  | Trigger => mkLife (on_trigger rearm (js l)) (S (routed_n l)) (starts l)
+  | Trigger => mkLife (on_trigger rearm ru (js l)) (S (routed_n l)) (starts l)
   | Refresh =>
     match js l with
     | JWaiting => if k <=? routed_n l then mkLife JRunning (routed_n l) (S (starts l)) else l
@@ -45,10 +49,15 @@ Definition life_step (rearm : bool) (k : nat) (l : jlife) (e : jevent) : jlife :
     | JRunning => mkLife JDone (routed_n l) (starts l)
     | _ => l
     end
+  | Fail =>
+    match js l with
+    | JWaiting => mkLife JFailed (routed_n l) (starts l)
+    | _ => l
+    end
   end.
 
-Definition life_run (rearm : bool) (k : nat) (evs : list jevent) : jlife :=
-  fold_left (life_step rearm k) evs life0.
+Definition life_run (rearm ru : bool) (k : nat) (evs : list jevent) : jlife :=
+  fold_left (life_step rearm ru k) evs life0.
 
 Definition jstate_code (s : jstate) : nat :=
-  match s with JAbsent => 0 | JWaiting => 1 | JRunning => 2 | JDone => 3 end.
+  match s with JAbsent => 0 | JWaiting => 1 | JRunning => 2 | JDone => 3 | JFailed => 4 end.
